@@ -94,8 +94,10 @@ def probe(paths, ck, d, cfg='asan', usability=()):
             s = x.call('C_OpenSession', slot=sl)
             if s['rv'] != 0: t['open'] = s['rvname']; snap['tokens'][label] = t; continue
             s = s['h']
+            t['so_rv'] = {}
             for name, pin in (('SO0', SO0), ('SO1', SO1)):
-                if x.call('C_Login', s=s, user=0, pin=pin.hex())['rv'] == 0: t['so'].append(name); x.call('C_Logout', s=s)
+                q_ = x.call('C_Login', s=s, user=0, pin=pin.hex()); t['so_rv'][name] = q_['rvname']
+                if q_['rv'] == 0: t['so'].append(name); x.call('C_Logout', s=s)
             for name, pin in (('U0', U0), ('U1', U1)):
                 if x.call('C_Login', s=s, user=1, pin=pin.hex())['rv'] == 0: t['user'].append(name); x.call('C_Logout', s=s)
             if t['user']: x.call('C_Login', s=s, user=1, pin={'U0': U0, 'U1': U1}[t['user'][0]].hex())
@@ -219,6 +221,8 @@ def judge(kind, S0, S1, R, part, cp, witness):
     if tl == 'fresh':
         B = toks.get('tokB')
         if B is not None and (B.get('so') != ['SO1'] or B.get('open') or B.get('find') != 'CKR_OK'): out.append('new-token-half-initialised')
+        # worse than half-initialised: the new token is there, and the SO is LOCKED OUT of it (no PIN can ever be tried again, the token cannot be given a user PIN)
+        if B is not None and (B.get('so_rv') or {}).get('SO1') in ('CKR_PIN_LOCKED', 'CKR_PIN_EXPIRED'): out.append('new-token-so-locked-out(%s)' % B['so_rv']['SO1'])
     extra = [k for k in toks if k not in ('tokA', 'tokA-new', 'tokB') and not k.startswith('?slot')]
     if extra: out.append('unexpected-token')
     return sorted(set(out))
